@@ -66,7 +66,8 @@ def global_field(W, H, seed):
     return ((np.arange(W * H) * mult + 2 + seed) % (W * H)).astype(float).reshape(H, W) * 2 - 9
 
 
-def expected(D, F, G, axis, op, target, rule, fv):
+def expected(D, F, G, axis, op, target, rule, fv, exact=False):
+    """exact: Python-integer arithmetic (object arrays) for 64-bit integer fields"""
     N, nf = D.N, D.nf
 
     def val(f, ip, jp):
@@ -84,7 +85,7 @@ def expected(D, F, G, axis, op, target, rule, fv):
     pts = {"left": range(0, N), "right": range(1, N + 1), "outer": range(0, N + 1), "inner": range(1, N)}[target]
     fn = S._OPS[op]
     shape = (nf, N, len(pts)) if axis == "X" else (nf, len(pts), N)
-    exp = np.empty(shape)
+    exp = np.empty(shape, dtype=object if exact else float)
     for f in range(nf):
         for o in range(N):
             for k, p in enumerate(pts):
@@ -117,6 +118,11 @@ def run_case(rec, Kx, Ky, N, per, orient, axis, op, target, ri, li, seed, pre=No
         # a missing value in the field (on a face edge): it is data like any other, also under the fill rule
         G = G.copy()
         G[0, D.W - 1] = np.nan
+    big = op != "interp" and (ri + li + len(op) + len(target)) % 5 == 2 and float(fv).is_integer() and float(ofv).is_integer()
+    if big:
+        # a field of 64-bit integers beyond 2**53 (cell identifiers, nanosecond time stamps): differences, minima and
+        # maxima across junctions are exact
+        G = (np.arange(D.W * D.H, dtype=np.int64).reshape(D.H, D.W) * 3 + 2 ** 55 + 1) * (1 if seed % 2 == 0 else -1)
     F = D.cut(G)
     pads = target != "inner"
     linked_on_axis = any(table[f].get(axis, (None, None)) != (None, None) for f in table)
@@ -125,6 +131,8 @@ def run_case(rec, Kx, Ky, N, per, orient, axis, op, target, ri, li, seed, pre=No
         rec.counters["kind:%d%d%d" % (kd[0], int(kd[1]), int(kd[2]))] += 1
     if ri % 2:
         table = {f: dict(reversed(list(table[f].items()))) for f in reversed(list(table))}
+    # the reverse flags as Python bools, numpy booleans or 0/1 (a table computed with numpy): the same topology
+    table = T.respell_flags(table, ri + li + len(op))
     try:
         percall = (ri + li) % 2 == 1 or li == 3
         withz = (ri + li + len(op)) % 3 == 0
@@ -159,8 +167,14 @@ def run_case(rec, Kx, Ky, N, per, orient, axis, op, target, ri, li, seed, pre=No
         rec.violation("op", "dims", case, edims, list(r.dims))
         return
     exp = expected(D, F, G, axis, op, target, rule, fv)
+    if big:
+        exp = expected(D, F.astype(object), G.astype(object), axis, op, target, rule, int(fv), exact=True)
     canon = ["face", "yc" if axis == "X" else newdim, newdim if axis == "X" else "xc"]
     got = r.isel(t=0).transpose(*canon).values if "t" in layout else r.transpose(*canon).values
+    if big:
+        if got.shape != exp.shape or [int(x) for x in np.asarray(got).ravel()] != [int(x) for x in exp.ravel()]:
+            rec.violation("op", f"values:{op}:int64-beyond-2**53", case, exp.astype(float), np.asarray(got, dtype=float))
+        return
     if got.shape != exp.shape or not np.array_equal(got, exp, equal_nan=True):
         rec.violation("op", f"values:{op}", case, exp, got)
         return
